@@ -26,6 +26,7 @@ META = {
 }
 META["explanation"] += ' R11.4 also requires the tag shift to accompany every structural change of the sorted buffer on every path of the arm (no fast path that inserts and returns before the shift).'
 META["explanation"] += ' R11.8 inside a loop that inserts into the sorted buffer, a searched position is not compared with a length of the buffer read before the loop.'
+META["explanation"] += " R11.9 every positional access to the sorted buffer (get / remove / set / insert / ..) takes a position that is not a diff's own index payload (a source-order index) unless it went through a search."
 
 STRUCT = {"append", "clear", "push_front", "push_back", "pop_front", "pop_back", "insert", "set", "remove", "truncate", "retain", "split_off", "slice", "extend"}
 TRANSLATOR = "vector::sort::handle_diff_and_update_buffered_vector"
@@ -69,6 +70,7 @@ def run(ctx):
     ctx.floor("R11.2", n, 11)
     r11_3(ctx, f, b, buf)
     r11_8(ctx, f, b, buf)
+    r11_9(ctx, f, b, buf)
     bulk_tags(ctx, f, sw, arms, buf)
     # poll function: end-of-stream and typestate
     for pf, sites in wakers.poll_fns(F, (UT,)):
@@ -603,3 +605,30 @@ def r11_8(ctx, f, b, buf):
 def is_buf_expr(e, buf):
     x = strip(e)
     return x[0] == "param" and x[1] == buf
+
+
+
+SEARCH = r"::binary_search_by$|::binary_search_by_key$|::binary_search$|::partition_point$|Iterator>?::(position|rposition|fold|try_fold|find|find_map|enumerate)$"
+
+
+def r11_9(ctx, f, b, buf):
+    """positions in the sorted buffer are sorted positions: an element access / removal / replacement of the buffer whose position
+    is a diff's own `index` payload (an index into the SOURCE order) touches an unrelated element."""
+    n = 0
+    for blk, t in b.calls(IMBL):
+        m = imbl_method(t)
+        if m not in ("get", "get_mut", "index", "index_mut", "remove", "set", "insert", "split_at", "split_off", "truncate", "take", "skip", "slice") or len(t["args"]) < 2:
+            continue
+        if not is_buf(b, t["args"][0], buf):
+            continue
+        n += 1
+        e = b.expr_of_op(t["args"][1])
+        where = b.line_at((blk, 10 ** 6))
+        src = contains(e, lambda y: y[0] == "field" and y[2] in ("index", "length") and contains(y[1], lambda z: z[0] == "param" and z[1] == 1))
+        searched = contains(e, lambda y: y[0] == "call" and ecall_matches(y, SEARCH))
+        if src and not searched:
+            ctx.violated("R11.9", f, "position-is-sorted-position:%s" % m, where,
+                         "`%s` on the sorted buffer is positioned by `%s`, a position in the source order: the sorted buffer holds the items in comparison order, so this reads / changes an unrelated item" % (m, fmt(e, 4)))
+        else:
+            ctx.holds("R11.9", f, "position-is-sorted-position:%s" % m, where, "position = %s" % fmt(e, 3))
+    ctx.floor("R11.9", n, 8)
